@@ -10,7 +10,7 @@
    by tokio and reported as JoinErrors by at_sim_end; they do not deactivate the module.
    Unwinding itself (that catch_unwind leaves tokio's and Rust's state intact) is not modelled. *)
 From Coq Require Import List NArith Bool.
-From DesVerif Require Import Life.Model Life.Base Life.Step Life.Trace Life.Frame Life.Inert Life.Events Life.Panic Life.Silent Life.Term Life.Stereo.
+From DesVerif Require Import Life.Model Life.Base Life.Step Life.Trace Life.Frame Life.Inert Life.Events Life.Panic Life.Silent Life.Term Life.Stereo Life.Errors.
 Import ListNotations.
 Open Scope N_scope.
 
@@ -30,7 +30,7 @@ Print Assumptions C13_contained.
    panic, in the order of the panics ([perrs], coq/Life/Panic.v); in particular the run returns Ok
    only if there is none *)
 Theorem C13_errors_exact : forall sc,
-  filter (fun e => negb (fst e)) (r_err (run_script sc)) = perrs sc (items (trace sc)).
+  filter is_pe (r_err (run_script sc)) = perrs sc (items (trace sc)).
 Proof. exact errors_exact. Qed.
 Print Assumptions C13_errors_exact.
 
@@ -79,15 +79,37 @@ Theorem C13_others_as_if_silent : forall sc m,
 Proof. intros sc m. apply (others_as_if_silent sc m); apply run_terminates. Qed.
 Print Assumptions C13_others_as_if_silent.
 
-(* Non-vacuity.  Module 0 panics in handle_message at t = 2 (its task would have logged 7 at
-   t = 3); module 2 starts with the non-catching stereotype, switches to the catching one in
-   at_sim_start and panics in that same callback. *)
+(* errors_exact_full: the complete error list run() returns, entry by entry.  Entries are (code, module): 0 PanicError,
+   1 JoinError Paniced, 2 JoinError NotFinished, 3 JoinError Tokio(cancelled).  First the PanicErrors of the
+   start-up phase and of the dispatched events, in the order of the panics ([body]: the trace without its tear-down
+   records).  Then, module by module in tree order, what the module's at_sim_end contributes ([end_errs]): the
+   PanicError of its at_sim_end callback if that panicked uncaught -- the join section is then skipped --, otherwise
+   its join errors ([join_errs]): for every try_join handle, in the order the tasks were spawned over all
+   incarnations ([spawned]: the module's [ISpawn] records), a Paniced entry if the task has panicked; then for every
+   join handle, in that order, NotFinished if the task has not ended, Paniced if it panicked, Tokio if it was
+   dropped with the tokio runtime of an earlier incarnation, nothing if it ran to completion.  What became of a task
+   is its [ITaskEnd] record in the trace ([ended]; none: still running).  The tear-down goes on after an error, every
+   module is asked.  ok_iff: run() returns Ok exactly if that list is empty. *)
+Theorem C13_errors_exact_full : forall sc,
+  r_err (run_script sc) = perrs sc (items (body (trace sc))) ++ flat_map (fun m => end_errs sc m (trace sc)) (mods sc).
+Proof. exact errors_exact_full. Qed.
+Print Assumptions C13_errors_exact_full.
+
+Theorem C13_ok_iff : forall sc, r_err (run_script sc) = [] <->
+  perrs sc (items (body (trace sc))) = [] /\ forall m, In m (mods sc) -> end_errs sc m (trace sc) = [].
+Proof. exact ok_iff. Qed.
+Print Assumptions C13_ok_iff.
+
+(* Non-vacuity.  Module 0 panics in handle_message at t = 2; its two tasks (both join()ed, asleep until t = 3) are
+   polled again only by the yield of its at_sim_end: one runs to completion, the other goes to sleep again and is
+   reported NotFinished.  Module 1's try_join()ed task panics at t = 1.  Module 2 starts with the non-catching
+   stereotype, switches to the catching one in at_sim_start and panics in that same callback. *)
 Definition px_m0 : modcfg := {| c_catch := false; c_stages := 1; c_bud := 5; c_start := [[]];
-  c_msg := [[ALog 1; APanic; ALog 2]; [ALog 3]]; c_tasks := [[ASleep 3; ALog 7]]; c_end := [] |}.
+  c_msg := [[ALog 1; APanic; ALog 2]; [ALog 3]]; c_tasks := [[ASleep 3; ALog 7]; [ASleep 3; ASleep 50; ALog 9]]; c_end := []; c_join := 3 |}.
 Definition px_m1 : modcfg := {| c_catch := false; c_stages := 1; c_bud := 5; c_start := [[]];
-  c_msg := [[ALog 2]]; c_tasks := []; c_end := [] |}.
+  c_msg := [[ALog 2]]; c_tasks := [[ASleep 1; APanic]]; c_end := []; c_join := 0 |}.
 Definition px_m2 : modcfg := {| c_catch := false; c_stages := 1; c_bud := 0; c_start := [[ASetCatch true; APanic]];
-  c_msg := []; c_tasks := []; c_end := [] |}.
+  c_msg := []; c_tasks := []; c_end := []; c_join := 0 |}.
 Definition px : script :=
   {| s_mods := [px_m0; px_m1; px_m2];
      s_inj := [(2, InjDeliver 0 0); (4, InjDeliver 0 1); (4, InjDeliver 1 0)] |}.
@@ -95,18 +117,20 @@ Definition px : script :=
 Example C13_nonvacuous :
   let tr := trace px in
   (* the panicking event: the rest of the handler is skipped, the module is inactive afterwards *)
-  e_items (nth 4 tr (boot_rec px (init_world px))) = [ICall 0 (CbMsg 0) 2 true; ILog 0 0 1; IPanic 0 0 false; ISample 2 2] /\
-  dead_after 0 (firstn 5 tr) = true /\
-  (* its task's wake-up and a further message produce nothing; module 1 is served as usual *)
-  map (fun e => (e_kind e, e_items e)) (firstn 3 (skipn 5 tr)) =
+  e_items (nth 5 tr (boot_rec px (init_world px))) = [ICall 0 (CbMsg 0) 2 true; ILog 0 0 1; IPanic 0 0 false; ISample 2 2] /\
+  dead_after 0 (firstn 6 tr) = true /\
+  (* its tasks' wake-up and a further message produce nothing; module 1 is served as usual *)
+  map (fun e => (e_kind e, e_items e)) (firstn 3 (skipn 6 tr)) =
     [(KLoop (EvWake 0), [ISample 3 2]); (KLoop (EvDeliver 0 1), [ISample 4 2]);
      (KLoop (EvDeliver 1 0), [ICall 1 (CbMsg 0) 4 true; ILog 1 0 2; ISample 4 2])] /\
   e_items (nth 2 tr (boot_rec px (init_world px))) = [ICall 2 (CbStart 0) 0 true; ISetCatch 2 0 true; IPanic 2 0 true] /\
-  (* only the module whose stereotype does not catch at the time of the panic is reported *)
-  r_err (run_script px) = [(false, 0)] /\ perrs px (items tr) = [(false, 0)] /\
-  (* module 1 sees the same in the run where module 0 falls silent instead (it is then reset and its task cancelled) *)
+  (* the returned error: the uncaught callback panic, then module 0's unfinished join()ed task, then module 1's panicked task *)
+  r_err (run_script px) = [(0, 0); (2, 0); (1, 1)] /\ perrs px (items tr) = [(0, 0)] /\
+  map (fun m => end_errs px m tr) (mods px) = [[(2, 0)]; [(1, 1)]; []] /\
+  (* module 1 sees the same in the run where module 0 falls silent instead (it is then reset and its tasks cancelled) *)
   others 0 (items (events_of tr)) = others 0 (items (events_of (trace (quieten 0 px)))) /\
   others 0 (items (events_of tr)) <> [] /\
-  e_items (nth 4 (trace (quieten 0 px)) (boot_rec px (init_world px))) =
-    [ICall 0 (CbMsg 0) 2 true; ILog 0 0 1; IQuiet 0; ICancel 0 0; IReset 0 2 1; ISample 2 2].
+  e_items (nth 5 (trace (quieten 0 px)) (boot_rec px (init_world px))) =
+    [ICall 0 (CbMsg 0) 2 true; ILog 0 0 1; IQuiet 0; ICancel 0 0; ICancel 0 1; ITaskEnd 0 0 0 2; ITaskEnd 0 1 0 2; IReset 0 2 1; ISample 2 2] /\
+  r_err (run_script (quieten 0 px)) = [(3, 0); (3, 0); (1, 1)].
 Proof. vm_compute. repeat split; try reflexivity; discriminate. Qed.
